@@ -51,7 +51,7 @@ pub fn scenario(family: &str, seed: u64) -> Scenario {
         l.cc = if rng.random_bool(0.3) { "bbr".into() } else { "cubic".into() };
         l.max_mtu = pick(rng, &[1300u16, 1350, 1500, 4000, 9000]);
     }
-    let mut sc = Scenario { seed, family: family.into(), c, s, net: net.clone(), streams: vec![], close: "c".into(), close_at_us: 0, linger_us: 300_000, deadline_us: 120_000_000 };
+    let mut sc = Scenario { seed, family: family.into(), c, s, net: net.clone(), streams: vec![], close: "c".into(), close_at_us: 0, linger_us: 300_000, deadline_us: 120_000_000, rebinds: vec![], cid_lifetime_s: 0 };
     match family {
         // clean network, default windows: the happy path
         "clean" => {
@@ -212,6 +212,27 @@ pub fn scenario(family: &str, seed: u64) -> Scenario {
                 sc.close_at_us = pick(rng, &[1_000u64, 30_000, 70_000, 150_000]);
             }
             sc.deadline_us = 40_000_000;
+        }
+        // long-lived connection: connection id expiry/rotation, NAT rebinding and migration of the client, small
+        // active_connection_id_limit values, loss of NEW_CONNECTION_ID / RETIRE_CONNECTION_ID frames
+        "cid" => {
+            net.drop = pick(rng, &[0u32, 50, 150]);
+            net.delay_us = pick(rng, &[1_000u64, 20_000]);
+            net.jitter_us = 0;
+            sc.cid_lifetime_s = pick(rng, &[0u64, 60, 75]);
+            for l in [&mut sc.c, &mut sc.s] {
+                l.acid_limit = pick(rng, &[2u64, 3, 5, 8]);
+                l.idle_ms = 30_000;
+            }
+            let n = rng.random_range(20..35);
+            sc.streams = (0..n).map(|k| StreamSpec {
+                opener: if rng.random_bool(0.8) { "c".into() } else { "s".into() }, bidi: true, send: 300, reply: 300, chunk: 300, reply_chunk: 300,
+                finish: true, start_us: k as u64 * 6_000_000 + rng.random_range(0..2_000_000u64), ..Default::default() }).collect();
+            for _ in 0..rng.random_range(0..5) {
+                sc.rebinds.push((rng.random_range(1_000_000..(n as u64) * 6_000_000), rng.random_bool(0.5)));
+            }
+            sc.rebinds.sort();
+            sc.deadline_us = 400_000_000;
         }
         _ => panic!("unknown family {family}"),
     }
